@@ -32,6 +32,7 @@ CONSTANTS
   RM = TRUE
   Slots = 2
   RmUuids = {1}
+  RmMonotone = FALSE
   Scrapes = FALSE
   HookScrapes = FALSE
   Marking = FALSE
